@@ -201,6 +201,10 @@ func (g *histGen) fieldsValue(op *hOp) {
 		root = s.Parent
 	}
 	for _, f := range fields {
+		if f.Typ != "" { // typed field (store_c03t.go): a value of the type's own universe in its storage encoding
+			c03tGenFieldValue(g, op, f)
+			continue
+		}
 		owner := op.Store
 		if g.fkTargetOf(owner, f.Name) == "" && s.Parent != "" {
 			owner = s.Parent
